@@ -1,6 +1,249 @@
+import DdsModel.Addr
 import DdsModel.Drv.Util
-namespace Dds.Drv
+/-!
+Driver section of C05: runs the addressing model on a case line and prints
+* the set of output bytes written (merged byte ranges relative to the view start: count, hash),
+* for formats whose pixels can identify their source (probe formats) a hash of the map
+  output pixel -> source pixel / samples.
 
-def runC05 (_line : String) : String := "not-modelled"
+The format table below transcribes the decoder tables of `src/decode/{uncompressed,sub_sampled,
+bi_planar,bc,astc}.rs` (family, block shape, encoded unit size, native colours in list order,
+specialised whole-image colour).
+-/
+namespace Dds.Drv
+open Dds Dds.Addr
+
+inductive Family where
+  | pixel (encBytes : Nat)
+  | block (p : Proc) (bh : Nat) (bytesPerBlock : Nat)
+  | planar (p1 p2 ssx ssy : Nat)
+
+structure FormatInfo where
+  family : Family
+  natives : List Color
+  special : Option Color := none
+
+def stdNat (c : Channels) : List Color := [⟨c, .u8⟩, ⟨c, .u16⟩, ⟨c, .f32⟩]
+
+def px (enc : Nat) (c : Channels) (special : Option Color := none) : FormatInfo :=
+  ⟨.pixel enc, stdNat c, special⟩
+def bc (bytes : Nat) (natives : List Color) : FormatInfo := ⟨.block .four 4 bytes, natives, none⟩
+def astc (bw bh : Nat) : FormatInfo := ⟨.block (.general bw) bh 16, stdNat .rgba, none⟩
+
+def formatInfo : String → Option FormatInfo
+  | "R8G8B8_UNORM" => some (px 3 .rgb (some ⟨.rgb, .u8⟩))
+  | "B8G8R8_UNORM" => some (px 3 .rgb)
+  | "R8G8B8A8_UNORM" => some (px 4 .rgba (some ⟨.rgba, .u8⟩))
+  | "R8G8B8A8_SNORM" => some (px 4 .rgba (some ⟨.rgba, .u8⟩))
+  | "B8G8R8A8_UNORM" => some (px 4 .rgba (some ⟨.rgba, .u8⟩))
+  | "B8G8R8X8_UNORM" => some ⟨.pixel 4, stdNat .rgb ++ [⟨.rgba, .u8⟩], none⟩
+  | "B5G6R5_UNORM" => some (px 2 .rgb)
+  | "B5G5R5A1_UNORM" => some (px 2 .rgba)
+  | "B4G4R4A4_UNORM" => some (px 2 .rgba)
+  | "A4B4G4R4_UNORM" => some (px 2 .rgba)
+  | "R8_SNORM" => some (px 1 .gray (some ⟨.gray, .u8⟩))
+  | "R8_UNORM" => some (px 1 .gray (some ⟨.gray, .u8⟩))
+  | "R8G8_UNORM" => some (px 2 .rgb)
+  | "R8G8_SNORM" => some (px 2 .rgb)
+  | "A8_UNORM" => some (px 1 .alpha (some ⟨.alpha, .u8⟩))
+  | "R16_UNORM" => some (px 2 .gray (some ⟨.gray, .u16⟩))
+  | "R16_SNORM" => some (px 2 .gray)
+  | "R16G16_UNORM" => some (px 4 .rgb)
+  | "R16G16_SNORM" => some (px 4 .rgb)
+  | "R16G16B16A16_UNORM" => some (px 8 .rgba (some ⟨.rgba, .u16⟩))
+  | "R16G16B16A16_SNORM" => some (px 8 .rgba)
+  | "R10G10B10A2_UNORM" => some (px 4 .rgba)
+  | "R11G11B10_FLOAT" => some (px 4 .rgb)
+  | "R9G9B9E5_SHAREDEXP" => some (px 4 .rgb)
+  | "R16_FLOAT" => some (px 2 .gray)
+  | "R16G16_FLOAT" => some (px 4 .rgb)
+  | "R16G16B16A16_FLOAT" => some (px 8 .rgba)
+  | "R32_FLOAT" => some (px 4 .gray (some ⟨.gray, .f32⟩))
+  | "R32G32_FLOAT" => some (px 8 .rgb)
+  | "R32G32B32_FLOAT" => some (px 12 .rgb (some ⟨.rgb, .f32⟩))
+  | "R32G32B32A32_FLOAT" => some (px 16 .rgba (some ⟨.rgba, .f32⟩))
+  | "R10G10B10_XR_BIAS_A2_UNORM" => some (px 4 .rgba)
+  | "AYUV" => some (px 4 .rgba)
+  | "Y410" => some (px 4 .rgba)
+  | "Y416" => some (px 8 .rgba)
+  | "R1_UNORM" => some ⟨.block (.general 8) 1 1, stdNat .gray, none⟩
+  | "R8G8_B8G8_UNORM" => some ⟨.block .two 1 4, stdNat .rgb, none⟩
+  | "G8R8_G8B8_UNORM" => some ⟨.block .two 1 4, stdNat .rgb, none⟩
+  | "UYVY" => some ⟨.block .two 1 4, stdNat .rgb, none⟩
+  | "YUY2" => some ⟨.block .two 1 4, stdNat .rgb, none⟩
+  | "Y210" => some ⟨.block .two 1 8, stdNat .rgb, none⟩
+  | "Y216" => some ⟨.block .two 1 8, stdNat .rgb, none⟩
+  | "NV12" => some ⟨.planar 1 2 2 2, stdNat .rgb, none⟩
+  | "P010" => some ⟨.planar 2 4 2 2, stdNat .rgb, none⟩
+  | "P016" => some ⟨.planar 2 4 2 2, stdNat .rgb, none⟩
+  | "BC1_UNORM" => some (bc 8 (stdNat .rgba))
+  | "BC2_UNORM" => some (bc 16 (stdNat .rgba ++ stdNat .rgb))
+  | "BC2_UNORM_PREMULTIPLIED_ALPHA" => some (bc 16 (stdNat .rgba))
+  | "BC3_UNORM" => some (bc 16 (stdNat .rgba ++ stdNat .rgb))
+  | "BC3_UNORM_PREMULTIPLIED_ALPHA" => some (bc 16 (stdNat .rgba))
+  | "BC4_UNORM" => some (bc 8 (stdNat .gray))
+  | "BC4_SNORM" => some (bc 8 (stdNat .gray))
+  | "BC5_UNORM" => some (bc 16 (stdNat .rgb))
+  | "BC5_SNORM" => some (bc 16 (stdNat .rgb))
+  | "BC6H_UF16" => some (bc 16 (stdNat .rgb))
+  | "BC6H_SF16" => some (bc 16 (stdNat .rgb))
+  | "BC7_UNORM" => some (bc 16 (stdNat .rgba))
+  | "BC3_UNORM_RXGB" => some (bc 16 (stdNat .rgb))
+  | "BC3_UNORM_NORMAL" => some (bc 16 (stdNat .rgb))
+  | "ASTC_4X4_UNORM" => some (astc 4 4)
+  | "ASTC_5X4_UNORM" => some (astc 5 4)
+  | "ASTC_5X5_UNORM" => some (astc 5 5)
+  | "ASTC_6X5_UNORM" => some (astc 6 5)
+  | "ASTC_6X6_UNORM" => some (astc 6 6)
+  | "ASTC_8X5_UNORM" => some (astc 8 5)
+  | "ASTC_8X6_UNORM" => some (astc 8 6)
+  | "ASTC_8X8_UNORM" => some (astc 8 8)
+  | "ASTC_10X5_UNORM" => some (astc 10 5)
+  | "ASTC_10X6_UNORM" => some (astc 10 6)
+  | "ASTC_10X8_UNORM" => some (astc 10 8)
+  | "ASTC_10X10_UNORM" => some (astc 10 10)
+  | "ASTC_12X10_UNORM" => some (astc 12 10)
+  | "ASTC_12X12_UNORM" => some (astc 12 12)
+  | _ => none
+
+/-- colour index = `ColorFormat::key` = precision * 4 + channels -/
+def colorOfIdx (i : Nat) : Option Color :=
+  if i ≥ 12 then none else
+  let ch := match i % 4 with | 0 => Channels.gray | 1 => .alpha | 2 => .rgb | _ => .rgba
+  let pr := match i / 4 with | 0 => Precision.u8 | 1 => .u16 | _ => .f32
+  some ⟨ch, pr⟩
+
+/-- formats whose decoded pixels can identify the source pixel (see harness/src/c05.rs) -/
+def isProbe (fmt : String) : Bool :=
+  fmt == "R8G8B8A8_UNORM" || fmt == "BC4_UNORM" || fmt == "R1_UNORM" || fmt == "YUY2" || fmt == "NV12"
+
+/-- the target colour carries information of the native pixel -/
+def observable (native target : Channels) : Bool :=
+  (chanMap native target).any fun s => match s with | .ch _ => true | _ => false
+
+def fnvStep (h : UInt64) (v : UInt64) : UInt64 := (h ^^^ v) * 0x100000001b3
+def fnvInit : UInt64 := 0xcbf29ce484222325
+
+/-- merged, sorted byte ranges of a run list -/
+def mergeRanges (rs : Array (Nat × Nat)) : Array (Nat × Nat) := Id.run do
+  let sorted := rs.qsort (fun a b => a.1 < b.1 || (a.1 == b.1 && a.2 < b.2))
+  let mut out : Array (Nat × Nat) := #[]
+  for (lo, hi) in sorted do
+    if lo ≥ hi then continue
+    match out.back? with
+    | some (plo, phi) =>
+      if lo ≤ phi then out := out.pop.push (plo, max phi hi) else out := out.push (lo, hi)
+    | none => out := out.push (lo, hi)
+  return out
+
+def bytesSummary (ranges : Array (Nat × Nat)) : String := Id.run do
+  let m := mergeRanges ranges
+  let mut total := 0
+  let mut h := fnvInit
+  for (lo, hi) in m do
+    total := total + (hi - lo)
+    h := fnvStep (fnvStep h (UInt64.ofNat lo)) (UInt64.ofNat hi)
+  return s!"wr={total} rg={m.size} bh={h.toNat}"
+
+def pack4 (a b c d : Nat) : UInt64 :=
+  UInt64.ofNat (a + b * 16384 + c * 268435456 + d * 4398046511104 + 1)
+
+/-- hash of the map output pixel -> packed source over the `h × w` view; `oob` = pixels written
+outside the view -/
+def mapSummary (w h : Nat) (writes : Array (Nat × Nat × Nat × UInt64)) : String := Id.run do
+  -- writes: (row, col, n, packed source of first pixel); consecutive pixels add `step`
+  let mut canvas : Array UInt64 := Array.replicate (w * h) 0
+  let mut oob := 0
+  for (row, col, n, v) in writes do
+    for t in [0:n] do
+      if row < h ∧ col + t < w then
+        canvas := canvas.set! (row * w + col + t) (v + UInt64.ofNat t)
+      else oob := oob + 1
+  let mut hsh := fnvInit
+  let mut unwritten := 0
+  for v in canvas do
+    hsh := fnvStep hsh v
+    if v == 0 then unwritten := unwritten + 1
+  return s!"sm={hsh.toNat} un={unwritten} oob={oob}"
+
+/-- block / pixel runs -> (row, col, n, packed (sx, sy)); consecutive pixels have consecutive sx -/
+def runWrites (bw bh : Nat) (runs : List Run) : Array (Nat × Nat × Nat × UInt64) :=
+  runs.toArray.map fun r => (r.row, r.col, r.n, pack4 (r.ux * bw + r.px) (r.uy * bh + r.py) 0 0)
+
+/-- planar runs are expanded per pixel (chroma index is not affine in `t`) -/
+def plWrites (ssx : Nat) (runs : List PlRun) : Array (Nat × Nat × Nat × UInt64) := Id.run do
+  let mut out := #[]
+  for r in runs do
+    for t in [0:r.n] do
+      out := out.push (r.row, r.col + t, 1, pack4 (r.lx + t) r.ly (r.cx + (r.px + t) / ssx) r.cy)
+  return out
+
+structure Decode where
+  ranges : Array (Nat × Nat)
+  writes : Array (Nat × Nat × Nat × UInt64)
+
+/-- run the model: `rect = none` → full decode of a `W × H` surface into a `W × H` view -/
+def decodeModel (info : FormatInfo) (c : Color) (W H : Nat) (rect : Option (Nat × Nat × Nat × Nat))
+    (pitch bufOff : Nat) : Option Decode := do
+  let d ← getDecoder info.natives c
+  let conv := d.ch != c.ch
+  let nbpp := d.bpp
+  let obpp := c.bpp
+  let fastAt : Nat → Bool := fun pixelRow =>
+    pitch % obpp == 0 && (bufOff + pixelRow * pitch) % c.pr.size == 0
+  match info.family with
+  | .pixel enc =>
+    let runs := match rect with
+      | none => if info.special == some c then copyFull W H else pixelFullLB conv nbpp enc W H
+      | some (ox, oy, w, h) => pixelRect conv nbpp W ox oy w h
+    some ⟨runs.toArray.map fun r => (r.byteLo pitch obpp, r.byteHi pitch obpp), runWrites 1 1 runs⟩
+  | .block p bh _ =>
+    let runs := match rect with
+      | none => blockFull p bh fastAt conv nbpp W H
+      | some (ox, oy, w, h) => blockRect p ⟨p.bw, bh, ox, oy, w, h⟩ fastAt conv nbpp
+    some ⟨runs.toArray.map fun r => (r.byteLo pitch obpp, r.byteHi pitch obpp), runWrites p.bw bh runs⟩
+  | .planar _ _ ssx ssy =>
+    let runs := match rect with
+      | none => planarFull conv nbpp ssx ssy W H
+      | some (ox, oy, w, h) => planarRect conv nbpp ⟨ssx, ssy, H, ox, oy, w, h⟩
+    some ⟨runs.toArray.map fun r => (r.row * pitch + r.col * obpp, r.row * pitch + (r.col + r.n) * obpp),
+          plWrites ssx runs⟩
+
+def summarize (fmt : String) (info : FormatInfo) (c : Color) (w h : Nat) (d : Decode) : String :=
+  let native := (getDecoder info.natives c).getD default
+  let b := bytesSummary d.ranges
+  if isProbe fmt && observable native.ch c.ch then s!"{b} {mapSummary w h d.writes}"
+  else s!"{b} sm=-"
+
+def runC05 (line : String) : String :=
+  match toks line with
+  | "R" :: fmt :: rest =>
+    match formatInfo fmt, natsOf rest with
+    | some info, some [W, H, ox, oy, w, h, ci, pitch, bufOff, _api, _seed] =>
+      match colorOfIdx ci with
+      | some c =>
+        if w = 0 ∨ h = 0 ∨ ox + w > W ∨ oy + h > H ∨ pitch < w * c.bpp then "bad-case" else
+        match decodeModel info c W H (some (ox, oy, w, h)) pitch bufOff with
+        | some d => "ok " ++ summarize fmt info c w h d
+        | none => "panic"
+      | none => "bad-case"
+    | _, _ => "bad-case"
+  | "F" :: fmt :: rest =>
+    match formatInfo fmt, natsOf rest with
+    | some info, some [W, H, ci, pitch, bufOff, _seed] =>
+      match colorOfIdx ci with
+      | some c =>
+        if W = 0 ∨ H = 0 ∨ pitch < W * c.bpp then "bad-case" else
+        match decodeModel info c W H none pitch bufOff with
+        | some d => "ok " ++ summarize fmt info c W H d
+        | none => "panic"
+      | none => "bad-case"
+    | _, _ => "bad-case"
+  | "L" :: fmt :: rest =>
+    match formatInfo fmt, natsOf rest with
+    | some _, some [W, H, ci, _seed] =>
+      if W = 0 ∨ H = 0 ∨ ci ≥ 12 then "bad-case" else "ok"
+    | _, _ => "bad-case"
+  | _ => "bad-case"
 
 end Dds.Drv
